@@ -28,8 +28,8 @@
 (* (twins share it and differ only in the witness), wok = the non-         *)
 (* signature part of the witness is satisfying, sigs = the signature       *)
 (* checks the script performs in order, each [sp, sd, p]: a signature made *)
-(* with key sp over the digest of txid sd, checked against public key p    *)
-(* and this transaction's digest.                                          *)
+(* with key sp over the digest sd, checked against public key p in a given *)
+(* ENCODING and this transaction's digest (see SigValid below).            *)
 (***************************************************************************)
 EXTENDS Integers, Sequences, FiniteSets, TLC, VF
 CONSTANTS TxU, Coins, H0, FlagHeights,
@@ -65,31 +65,50 @@ OutOf(t) == <<Tid(t), 1>>
 InsSet(t) == {TxU[t].ins[j] : j \in 1..Len(TxU[t].ins)}
 ClsOf(op) == IF op[1] = 0 THEN Coins[op[2]] ELSE "true"
 ToSet(s) == {s[i] : i \in 1..Len(s)}
-\* the universe is conflict free (two transactions spend the same outpoint only if they are witness twins), twins have the same inputs
-ASSUME \A a, b \in 1..Len(TxU) : (Tid(a) = Tid(b) => TxU[a].ins = TxU[b].ins) /\ (Tid(a) # Tid(b) => InsSet(a) \cap InsSet(b) = {})
+\* Dg(t): the data the signatures of t commit to (the transaction without scriptSigs and witnesses).  Witness twins share txid and
+\* digest; scriptSig twins (P2SH spends that differ only in the pushed public key) share the digest but not the txid.  Two
+\* transactions spend the same outpoint only if they are such twins.
+Dg(t) == TxU[t].dg
+ASSUME \A a, b \in 1..Len(TxU) : /\ (Tid(a) = Tid(b) => Dg(a) = Dg(b))
+                                  /\ (Dg(a) = Dg(b) => TxU[a].ins = TxU[b].ins /\ TxU[a].sv = TxU[b].sv)
+                                  /\ (Dg(a) # Dg(b) => InsSet(a) \cap InsSet(b) = {})
 \* soft forks only restrict: STANDARD-valid implies valid under every consensus flag set
 ASSUME \A i \in 1..Len(Coins), F \in AllFlagSets : ClsOK(Coins[i], Standard) => ClsOK(Coins[i], F)
 
-SigValid(t, g) == g.sp = g.p /\ g.sd = Tid(t)
+\* A signature check g = [sp, sd, sht, senc, p, enc, ht]: a signature made with key sp over the digest of Dg = sd under hash type sht,
+\* serialised with a low or a high S (senc), is checked against public key p GIVEN IN ENCODING enc, the hash type byte pushed with
+\* it being ht.  Encodings of a key with coordinates (X, Y):
+\*   "c"  02/03|X   "u"  04|X|Y   "h"  06/07|X|Y with the header matching Y's parity          -- all three parse to the same point
+\*   "hx" 06/07|X|Y with the wrong parity header     "ux" 04|X|Y' with Y' off the curve (same low bit as Y)   -- rejected by the parser
+\* What the interpreter checks before it calls the signature checker (CheckSignatureEncoding / CheckPubKeyEncoding): policy only.
+GoodEnc == {"c", "u", "h"}
+PreOK(t, g, F) == "POLICY" \in F => /\ g.senc = "low"                                    \* LOW_S
+                                      /\ g.enc \in {"c", "u", "ux"}                        \* STRICTENC: 33 bytes 02/03 or 65 bytes 04
+                                      /\ (TxU[t].sv = "wit" => g.enc = "c")                \* WITNESS_PUBKEYTYPE
+\* what CPubKey::Verify decides: the key parses, and the signature is one by that key over this transaction's digest and hash type
+SigValid(t, g) == g.sp = g.p /\ g.sd = Dg(t) /\ g.sht = g.ht /\ g.enc \in GoodEnc
 PlainOK(t, F) == TxU[t].wok /\ \A op \in InsSet(t) : ClsOK(ClsOf(op), F)
 \* the cache-free script verdict of transaction t under flags F
-ScriptsTruth(t, F) == PlainOK(t, F) /\ \A i \in 1..Len(TxU[t].sigs) : SigValid(t, TxU[t].sigs[i])
+ScriptsTruth(t, F) == PlainOK(t, F) /\ \A i \in 1..Len(TxU[t].sigs) : PreOK(t, TxU[t].sigs[i], F) /\ SigValid(t, TxU[t].sigs[i])
 
 \* ------------------------------------------------------------------ the caches
-\* SignatureCache entry = H(digest, pubkey, signature)
-SKey(t, g) == [s |-> <<g.sp, g.sd>>,
-               p |-> IF KeyMode = "sig_nopk" THEN "any" ELSE g.p,
-               d |-> IF KeyMode = "sig_nodigest" THEN 0 ELSE Tid(t)]
+\* SignatureCache entry = H(sighash, public key bytes as pushed, signature bytes without the hash type)
+SKey(t, g) == [s |-> <<g.sp, g.sd, g.sht, g.senc>>,
+               p |-> CASE KeyMode = "sig_nopk" -> <<"any", "c">>
+                       [] KeyMode = "sig_noenc" -> <<g.p, "c">>          \* the key normalised to (parity, X): every encoding of it collides
+                       [] OTHER -> <<g.p, g.enc>>,
+               d |-> IF KeyMode = "sig_nodigest" THEN <<0, "all">> ELSE <<Dg(t), g.ht>>]
 \* Erasure: CuckooCache::contains(e, erase = TRUE) only marks the entry as collectable; it stays visible to later lookups until its
 \* slot is needed, which never happens at these loads.  Observably the caches only grow, and that is what is modelled.
 \* CachingTransactionSignatureChecker::VerifyECDSASignature, for the checks of one script in order (stops at the first failure)
-RECURSIVE SigRun(_, _, _, _)
-SigRun(t, gs, store, S) ==
+RECURSIVE SigRun(_, _, _, _, _)
+SigRun(t, gs, F, store, S) ==
   IF gs = <<>> THEN [ok |-> TRUE, sc |-> S]
   ELSE LET g == Head(gs)
            e == SKey(t, g)
-       IN IF e \in S THEN SigRun(t, Tail(gs), store, S)      \* Get(entry, erase = !store): see the note on erasure above
-          ELSE IF SigValid(t, g) THEN SigRun(t, Tail(gs), store, IF store THEN S \cup {e} ELSE S)
+       IN IF ~PreOK(t, g, F) THEN [ok |-> FALSE, sc |-> S]    \* the interpreter fails before the checker is asked
+          ELSE IF e \in S THEN SigRun(t, Tail(gs), F, store, S)      \* Get(entry, erase = !store): see the note on erasure above
+          ELSE IF SigValid(t, g) THEN SigRun(t, Tail(gs), F, store, IF store THEN S \cup {e} ELSE S)
           ELSE [ok |-> FALSE, sc |-> S]
 \* script-execution cache entry = H(wtxid, flags)
 EKey(t, F) == [w |-> IF KeyMode = "txid" THEN Tid(t) ELSE t, f |-> IF KeyMode = "noflags" THEN {} ELSE F]
@@ -99,7 +118,7 @@ CheckInputs(t, F, storeS, storeE, E, S, path) ==
   LET e == EKey(t, F) IN
   IF e \in E THEN [ok |-> TRUE, ec |-> E, sc |-> S]              \* contains(entry, erase = !cacheFullScriptStore)
   ELSE IF ~PlainOK(t, F) THEN [ok |-> FALSE, ec |-> E, sc |-> S]
-  ELSE LET r == SigRun(t, TxU[t].sigs, storeS, S) IN
+  ELSE LET r == SigRun(t, TxU[t].sigs, F, storeS, S) IN
        [ok |-> r.ok, ec |-> IF r.ok /\ storeE THEN E \cup {EKeyStore(t, F, path)} ELSE E, sc |-> r.sc]
 
 \* ------------------------------------------------------------------ chain and UTXO set (as sets of outpoints)
@@ -139,6 +158,7 @@ PreCheck(t, V, P) ==
   IF t \in P THEN "dup"                                         \* txn-already-in-mempool
   ELSE IF \E p \in P : Tid(p) = Tid(t) THEN "dup"               \* txn-same-nonwitness-data-in-mempool
   ELSE IF ~(InsSet(t) \subseteq Avail(V, P)) THEN "noinputs"    \* txn-already-known / bad-txns-inputs-missingorspent
+  ELSE IF \E p \in P : InsSet(p) \cap InsSet(t) # {} THEN "conflict"   \* a scriptSig twin is in the pool: replacement at the same fee is refused (ReplacementChecks, before any script runs)
   ELSE "ok"
 ATMP(t, h, V, P, E, S) ==
   LET pre == PreCheck(t, V, P) IN
@@ -188,7 +208,11 @@ Mine(txs) ==
          r == Block(txs, V, F, FALSE, ec, sc)
      IN /\ ec' = r.ec /\ sc' = r.sc
         /\ chain' = IF r.ok THEN Append(chain, txs) ELSE chain
-        /\ pool' = IF r.ok THEN {p \in pool : Tid(p) \notin {Tid(x) : x \in ToSet(txs)}} ELSE pool      \* removeForBlock (by txid)
+        /\ pool' = IF r.ok THEN LET spent == UNION {InsSet(x) : x \in ToSet(txs)}                       \* removeForBlock: the block's own transactions
+                                    tids == {Tid(x) : x \in ToSet(txs)}                                \* (by txid), conflicting spends and their descendants
+                                    confl == {p \in pool : InsSet(p) \cap spent # {} /\ Tid(p) \notin tids}
+                                IN {p \in pool : InsSet(p) \cap spent = {}} \ DescOf(pool, {OutOf(p) : p \in confl})
+                    ELSE pool
         /\ agree' = (r.why = TruthBlock(txs, V, F))
         /\ lastRes' = <<r.why>>
   /\ lastAct' = <<"mine", txs>>
@@ -227,7 +251,7 @@ Agree == agree
 NextLookupsAgree == \A t \in Active, F \in AllFlagSets, st \in BOOLEAN : CheckInputs(t, F, st, st, ec, sc, "block").ok = ScriptsTruth(t, F)
 \* what makes it true: the caches hold only true facts (meaningful for KeyMode = "full")
 ExecCacheSound == \A e \in ec : ScriptsTruth(e.w, e.f)
-SigCacheSound == \A e \in sc : e.s = <<e.p, e.d>>
+SigCacheSound == \A e \in sc : e.s[1] = e.p[1] /\ e.s[2] = e.d[1] /\ e.s[3] = e.d[2] /\ e.p[2] \in GoodEnc
 \* consequences: the active chain is valid by the cache-free rules, the pool holds only STANDARD-valid transactions
 RECURSIVE ChainTruth(_)
 ChainTruth(c) == c = <<>> \/ LET c2 == SubSeq(c, 1, Len(c) - 1) IN
